@@ -324,8 +324,8 @@ def check_C14(run):
     for e in roots[: (12 if th else 4)] + [{"fen": "rnbqkbnr/pppppppp/8/8/8/8/PPPPPPPP/RNBQKBNR w KQkq - 0 1"}, {"fen": "rnbqkbnr/pppppppp/8/8/4P3/8/PPPP1PPP/RNBQKBNR b KQkq - 0 1"}]:
         wtm = e["fen"].split(" ")[1] == "w"
         mine = "timei:250:600000:2500:0" if wtm else "timei:600000:250:0:2500"          # the mover is short of time and has the increment
-        theirs = "timei:250:600000:0:60000" if wtm else "timei:600000:250:60000:0"      # only the opponent has an increment
-        for ls in ("timei:300:300:3000:3000", mine, theirs, "timei:400:400:2000:2000:5", "timei:100:100:60000:60000:1", "timei:150:150:0:0:4294967295"):
+        theirs = "timei:250:600000:0:6000" if wtm else "timei:600000:250:6000:0"      # only the opponent has an increment
+        for ls in ("timei:300:300:3000:3000", mine, theirs, "timei:400:400:2000:2000:5", "timei:100:100:6000:6000:1", "timei:150:150:0:0:4294967295"):
             timed.append(("root\t0\t" + e["fen"] + "\t\t1\t" + ls, e["fen"], ls))
     tlegal = legal_sets([t[1] for t in timed])
     cap = "root\t0\t8/8/8/4k3/8/8/4K3/8 w - - 0 1\t\t1\tdepth:130"
@@ -404,7 +404,7 @@ def check_C14(run):
         if d.get("ms") is None or d["ms"] > budget + 250:
             # a scheduling hiccup is not a violation: only a budget overrun that repeats three times in a row counts
             again = []
-            for _ in range(2):
+            for _ in range(0 if (d.get("ms") or 0) > budget + 1500 else 2):     # a gross overrun is not a scheduling hiccup
                 o2, _ = vlib.run_impl([rq])
                 again.append(parse_search(o2[0]).get("ms"))
             if any(x is not None and x <= budget + 250 for x in again):
